@@ -1079,7 +1079,7 @@ def header_short_reads(data, seed):
 
 
 def read_twice(world, data, block_size=None, actor='aux', abandon=None,
-               extras=None, stream='sim', buf=None):
+               extras=None, stream='sim', buf=None, abandon_how='close'):
     """The same reader object iterated twice over the same stream: a
     first pass that runs to its end, fails, or is abandoned after `abandon`
     records; the caller then rewinds the stream and iterates again.  Returns
@@ -1099,10 +1099,20 @@ def read_twice(world, data, block_size=None, actor='aux', abandon=None,
             n += 1
 
             if abandon is not None and n >= abandon:
-                close = getattr(it, 'close', None)
+                # how the consumer walks away: closes the iterator, throws
+                # its own exception into it, or simply drops it
+                if abandon_how == 'throw' and hasattr(it, 'throw'):
+                    try:
+                        it.throw(KeyError('consumer gave up'))
+                    except (KeyError, StopIteration):
+                        pass
+                elif abandon_how == 'drop':
+                    it = None
+                else:
+                    close = getattr(it, 'close', None)
 
-                if close is not None:
-                    close()
+                    if close is not None:
+                        close()
 
                 break
     except (SimEventCap, SimHang):
